@@ -686,3 +686,4 @@ CHECKS["C08"]["jobs"].append(J("overlapping-writers", VSTORE, "TestC01Overlappin
 CHECKS["C08"]["required_classes"]["all"] += ["overlapping-updates-of-a-record-with-auxiliary-data"]
 CHECKS["C08"]["required_classes"]["all"] += ["work-area-had-leftovers-under-the-names-a-dry-run-used"]
 CHECKS["C11"]["required_classes"]["all"] += ["free-running:hook-rounds-while-serving,relative-base-directory"]
+CHECKS["C20"]["required_classes"]["all"] += ["host-wall-clock-stepped-back-while-the-module-runs"]
